@@ -2,18 +2,37 @@
 //!
 //! The mapping from words to choices is monotone (`word * n >> 32`), so a smaller word is a
 //! "smaller" choice and the word 0 always selects the first (simplest) alternative.  An
-//! exhausted tape yields zeros, i.e. the smallest structure.  No other source of randomness
-//! exists inside a property.
+//! exhausted tape yields zeros, i.e. the smallest structure (medium-size cases, which need far
+//! more choices than a tape holds, continue with a sequence computed from the tape's own words
+//! instead).  No other source of randomness exists inside a property.
 
 #[derive(Clone, Debug)]
 pub struct Tape<'a> {
     words: &'a [u32],
     pos: usize,
+    /// `Some(state)`: an exhausted tape continues with a sequence derived from its own content
+    /// (medium-size cases need more choices than a tape holds); `None`: it continues with zeros
+    ext: Option<u64>,
+}
+
+/// medium-size cases are selected by the first word of the tape (about one tape in 311)
+pub fn is_medium(words: &[u32]) -> bool {
+    words.first().map_or(false, |w| w % 311 == 7)
 }
 
 impl<'a> Tape<'a> {
     pub fn new(words: &'a [u32]) -> Self {
-        Tape { words, pos: 0 }
+        Tape { words, pos: 0, ext: None }
+    }
+
+    /// a tape that does not run dry: past its end it yields a splitmix64 sequence seeded with a
+    /// hash of its words, so the whole case remains a pure function of the tape
+    pub fn extended(words: &'a [u32]) -> Self {
+        let mut h: u64 = 0x9E37_79B9_7F4A_7C15;
+        for &w in words {
+            h = (h ^ w as u64).wrapping_mul(0x100_0000_01B3).rotate_left(23);
+        }
+        Tape { words, pos: 0, ext: Some(h) }
     }
 
     /// number of words consumed so far (may exceed the tape length)
@@ -27,7 +46,19 @@ impl<'a> Tape<'a> {
 
     #[inline]
     pub fn word(&mut self) -> u32 {
-        let w = self.words.get(self.pos).copied().unwrap_or(0);
+        let w = match self.words.get(self.pos) {
+            Some(&w) => w,
+            None => match self.ext.as_mut() {
+                None => 0,
+                Some(st) => {
+                    *st = st.wrapping_add(0x9E37_79B9_7F4A_7C15);
+                    let mut z = *st;
+                    z = (z ^ (z >> 30)).wrapping_mul(0xBF58_476D_1CE4_E5B9);
+                    z = (z ^ (z >> 27)).wrapping_mul(0x94D0_49BB_1331_11EB);
+                    ((z ^ (z >> 31)) >> 32) as u32
+                }
+            },
+        };
         self.pos += 1;
         w
     }
